@@ -4,6 +4,16 @@ Protocol (one self-contained case per line, see lean/OFCore/OFCore/Drv/Doc.lean 
 
     doc build <system spec> <default period (hex) | -> <document>
         -> OK <entities> <store> | SITUATION | ERR | UNMODELLED | NONE (implementation only)
+    doc entities <system spec> <default period | -> <document>      SimulationBuilder.build_from_entities called directly
+                                                                     (as the web API does), without build_from_dict's dispatch
+    doc manual <system spec> <default period | -> <document>        the steps of build_from_entities called one by one through the
+                                                                     builder's public methods (add_person_entity, add_group_entity /
+                                                                     add_default_group_entity, add_parallel_axis, add_perpendicular_axis,
+                                                                     expand_axes, finalize_variables_init): well-formed documents only
+    doc default <system spec> <count>                                SimulationBuilder.build_default_simulation
+    doc join <system spec> {persons: [id...], groups: [{kind, ids: [id...], of: [id...], roles: [key | index ...]}]}
+                                                                     create_entities / declare_person_entity / declare_entity /
+                                                                     join_with_persons / build
 
 <system spec> and <document> travel in the blank-free prefix notation of tbsutil.enc_tree (integer
 dict keys are kept apart from text keys).  <entities> = key:ids:count:members_entity_id:members_role:
@@ -12,6 +22,18 @@ var(hex)@period text=values, sorted, joined by ';'; values i<int> n<p>/<q> T F s
 
 The groups appended for persons left out of a group kind come out of a Python `set`: the adapter
 renumbers them in the order of the persons (DESIGN Appendix A: compared as a mapping).
+
+Mutation survivors triaged in round 2 (tools/mutscan.py):
+* simulation_builder.py `if len(axes) >= 1:` -> `> 1` / `>= 0`: EQUIVALENT.  The parallel axes `axes[0]` are registered
+  before the test; the guarded loop runs over `axes[1:]`, which is empty for one list, and `axes[0]` has already failed
+  on an empty list.  A single list of axes therefore expands under either mutant (generated: tags axes:parallel).
+* add_default_group_entity `numpy.arange(0, n, dtype=numpy.int32)` without dtype: EQUIVALENT in value.  Only the dtype of
+  `members_entity_id` changes (int64 instead of int32), which the declared route (`numpy.empty(int32).tolist()` ->
+  `numpy.array`) already gives as int64; no statement clause is about that dtype.
+* expand_axes `get_variable(axis_name, check_existence=True)` -> False: OUTSIDE the statement (error class only, on a route
+  the repair F-C12-errclass-axes closed: build_from_entities now refuses an unknown axis variable in check_axis before
+  expand_axes runs; called directly, expand_axes raises AttributeError instead of VariableNotFoundError — an ordinary
+  exception either way, which tests/core/test_axes.py pins as KeyError for the first axis).
 """
 from __future__ import annotations
 
@@ -28,9 +50,26 @@ from .. import tbsutil as T
 # lines
 
 
-def mk_case(spec, dp, doc, tags=(), claimed=True) -> Case:
-    line = f"doc build {T.enc_tree(spec)} {T.hexs(dp) if dp else '-'} {T.enc_tree(doc)}"
-    return Case(line=line, tags=tuple(tags), claimed=claimed)
+ROUTES = ("build", "entities", "manual")
+
+
+def mk_case(spec, dp, doc, tags=(), claimed=True, route="build") -> Case:
+    line = f"doc {route} {T.enc_tree(spec)} {T.hexs(dp) if dp else '-'} {T.enc_tree(doc)}"
+    tags = tuple(tags) + (() if route == "build" else ("route:" + route,))
+    return Case(line=line, tags=tags, claimed=claimed)
+
+
+def mk_default_case(spec, count, style) -> Case:
+    """`style`: how build_default_simulation is called (static / instance, count positional / keyword / left out)."""
+    return Case(line=f"doc default {T.enc_tree(spec)} {count}", tags=("route:default", "call:" + style), payload={"style": style})
+
+
+def mk_join_case(spec, jdoc, tags=(), claimed=True) -> Case:
+    return Case(line=f"doc join {T.enc_tree(spec)} {T.enc_tree(jdoc)}", tags=("route:join",) + tuple(tags), claimed=claimed)
+
+
+def route_of(line: str) -> str:
+    return line.split(" ", 2)[1]
 
 
 _PARSED: dict = {}
@@ -40,7 +79,12 @@ def parse_line(line: str):
     hit = _PARSED.get(line)
     if hit is None:
         f = line.split()
-        hit = (T.dec_tree(f[2]), None if f[3] == "-" else T.unhexs(f[3]), T.dec_tree(f[4]))
+        if f[1] == "default":
+            hit = (T.dec_tree(f[2]), None, int(f[3]))
+        elif f[1] == "join":
+            hit = (T.dec_tree(f[2]), None, T.dec_tree(f[3]))
+        else:
+            hit = (T.dec_tree(f[2]), None if f[3] == "-" else T.unhexs(f[3]), T.dec_tree(f[4]))
         if len(_PARSED) > 20000:
             _PARSED.clear()
         _PARSED[line] = hit
@@ -250,24 +294,172 @@ def renumber_own_groups(obs, spec, doc):
 # implementation adapter
 
 
+def _manual_build(tbs, spec, dp, doc):
+    """The steps of build_from_entities, one public method of the builder after the other (the way
+    tests/core/test_simulation_builder.py drives it)."""
+    from openfisca_core.simulations import Simulation, SimulationBuilder
+    b = SimulationBuilder()
+    if dp:
+        b.set_default_period(dp)
+    sim = Simulation(tbs, tbs.instantiate_entities())
+    b.register_variables(sim)
+    pids = b.add_person_entity(sim.persons.entity, doc[spec["pp"]])
+    for ge in tbs.group_entities:
+        inst = doc.get(ge.plural)
+        if inst is not None:
+            b.add_group_entity(b.persons_plural, pids, ge, inst)
+        else:
+            b.add_default_group_entity(pids, ge)
+    axes = doc.get("axes")
+    if axes is not None:
+        for a in axes[0]:
+            b.add_parallel_axis(a)
+        for dim in axes[1:]:
+            b.add_perpendicular_axis(dim[0])
+        b.expand_axes()
+    b.finalize_variables_init(sim.persons)
+    for ge in tbs.group_entities:
+        b.finalize_variables_init(sim.populations[ge.key])
+    return sim
+
+
+def manual_ok(spec, doc) -> bool:
+    """Documents the step-by-step route can take: fully specified, persons given, every group kind given
+    when there are axes, one axis per perpendicular dimension (add_perpendicular_axis takes one)."""
+    if not isinstance(doc, dict) or not isinstance(doc.get(spec["pp"]), dict) or not doc[spec["pp"]]:
+        return False
+    plurals = {spec["pp"]} | {g["plural"] for g in spec["groups"]}
+    if any(k not in plurals and k != "axes" for k in doc):
+        return False
+    axes = doc.get("axes")
+    if axes is not None:
+        if any(doc.get(g["plural"]) is None for g in spec["groups"]):
+            return False
+        if not isinstance(axes, list) or not axes or any(not isinstance(d, list) or not d for d in axes) or any(len(d) != 1 for d in axes[1:]):
+            return False
+    return True
+
+
+def impl_default(case: Case, spec, count) -> str:
+    tbs = T.make_system(spec)
+    from openfisca_core.simulations import SimulationBuilder
+    style = (case.payload or {}).get("style", "static")
+    try:
+        if style == "static":
+            sim = SimulationBuilder.build_default_simulation(tbs, count)
+        elif style == "keyword":
+            sim = SimulationBuilder().build_default_simulation(tbs, count=count)
+        elif style == "omitted":                    # count left out: one person
+            sim = SimulationBuilder().build_default_simulation(tbs)
+        else:
+            sim = SimulationBuilder().build_default_simulation(tbs, count)
+    except Exception as e:
+        return "ERR " + type(e).__name__
+    shared = shared_memory(sim, spec)
+    if shared:
+        return "ALIASED " + shared
+    return show_obs(T.read_simulation(sim, spec))
+
+
+def impl_join(case: Case, spec, jdoc) -> str:
+    import numpy as np
+    tbs = T.make_system(spec)
+    from openfisca_core.simulations import SimulationBuilder
+    b = SimulationBuilder()
+    jdoc = copy.deepcopy(jdoc)             # the lists handed to the builder are the caller's
+    before = T.enc_tree(jdoc)
+    try:
+        b.create_entities(tbs)
+        b.declare_person_entity(spec["pk"], jdoc["persons"])
+        for j in jdoc["groups"]:
+            pop = b.declare_entity(j["kind"], j["ids"])
+            b.join_with_persons(pop, j["of"], j["roles"])
+        sim = b.build(tbs)
+        if T.enc_tree(jdoc) != before:
+            return "INPUT-MODIFIED"
+        shared = shared_memory(sim, spec)
+        if shared:
+            return "ALIASED " + shared
+        for j in jdoc["groups"]:                   # the builder's own count of members agrees with the memberships it set
+            nb = [int(x) for x in b.nb_persons(j["kind"])]
+            memb = [int(x) for x in sim.populations[j["kind"]].members_entity_id]
+            if nb != [memb.count(k) for k in range(len(j["ids"]))]:
+                return "NBPERSONS " + j["kind"]
+    except Exception as e:
+        return "ERR " + type(e).__name__
+    return show_obs(T.read_simulation(sim, spec))
+
+
+def shared_memory(sim, spec):
+    """Two stored vectors (or id / membership arrays of two entities) that occupy the same memory: writing into one
+    through its holder would silently change the other.  The sub-periods over which ONE long-period input of a
+    dispatch / divide variable is spread are left out (the set_input helpers store one array object for all of them:
+    property C16's mechanism, reported there)."""
+    import numpy as np
+    arrs = []
+    for v in spec["vars"]:
+        h = sim.get_holder(v["name"])
+        for p in h.get_known_periods():
+            arrs.append((v["name"], v["rule"], str(p), np.asarray(h.get_array(p))))
+    for k in [spec["pk"]] + [g["key"] for g in spec["groups"]]:
+        pop = sim.populations[k]
+        for what in ("ids", "members_entity_id"):
+            x = getattr(pop, what, None)
+            if isinstance(x, np.ndarray):
+                arrs.append((k + "." + what, "absent", "", x))
+    for i in range(len(arrs)):
+        for j in range(i + 1, len(arrs)):
+            a, b = arrs[i], arrs[j]
+            if a[0] == b[0] and a[1] != "absent":
+                continue
+            if a[3].size and b[3].size and np.may_share_memory(a[3], b[3]):
+                return f"{a[0]}@{a[2]} and {b[0]}@{b[2]}"
+    return None
+
+
+def _build(route, tbs, spec, dp, d):
+    from openfisca_core.simulations import SimulationBuilder
+    if route == "manual":
+        return _manual_build(tbs, spec, dp, d)
+    builder = SimulationBuilder()
+    if dp:
+        builder.set_default_period(dp)
+    return builder.build_from_entities(tbs, d) if route == "entities" else builder.build_from_dict(tbs, d)
+
+
 def impl(case: Case) -> str:
+    route = route_of(case.line)
     spec, dp, doc = parse_line(case.line)
+    if route == "default":
+        return impl_default(case, spec, doc)
+    if route == "join":
+        return impl_join(case, spec, doc)
     tbs = T.make_system(spec)
     from openfisca_core import errors
-    from openfisca_core.simulations import SimulationBuilder
-    builder = SimulationBuilder()
+    d = copy.deepcopy(doc)                 # the description handed to the builder ...
+    before = T.enc_tree(d) if isinstance(d, (dict, list)) else None
     try:
-        if dp:
-            builder.set_default_period(dp)
-        sim = builder.build_from_dict(tbs, copy.deepcopy(doc))
+        sim = _build(route, tbs, spec, dp, d)
     except errors.SituationParsingError:
-        return "SITUATION"
+        return "SITUATION" if before is None or T.enc_tree(d) == before else "INPUT-MODIFIED (refused)"
     except Exception as e:  # any other exception of the implementation
         return "ERR " + type(e).__name__
     if sim is None:
         return "NONE"
-    obs = T.read_simulation(sim, spec)
-    return show_obs(renumber_own_groups(obs, spec, doc))
+    if before is not None and T.enc_tree(d) != before:       # ... is the caller's: it must come back as it was given
+        return "INPUT-MODIFIED"
+    out = show_obs(renumber_own_groups(T.read_simulation(sim, spec), spec, doc))
+    shared = shared_memory(sim, spec)
+    if shared:
+        return "ALIASED " + shared
+    if len(case.line) % 4 == 0:            # a second simulation from the SAME description object: the same simulation
+        try:
+            again = show_obs(renumber_own_groups(T.read_simulation(_build(route, tbs, spec, dp, d), spec), spec, doc))
+        except Exception as e:
+            again = "ERR " + type(e).__name__
+        if again != out or T.enc_tree(d) != before:
+            return "SECOND-BUILD-DIFFERS " + again[:200]
+    return out
 
 
 # --------------------------------------------------------------------------------------
@@ -654,7 +846,9 @@ def _place(ref, spec, vmap, decl, counts):
             ref.cells[(name, mt)] = vec
 
 
-def reference(spec, dp_raw, doc) -> Ref:
+def reference(spec, dp_raw, doc, route="build") -> Ref:
+    """`route`: build = through build_from_dict (the three shapes); entities / manual = build_from_entities
+    directly: every top-level key must be an entity plural (or `axes`)."""
     ref = Ref()
     vmap = {v["name"]: v for v in spec["vars"]}
     if not isinstance(doc, dict):
@@ -670,8 +864,15 @@ def reference(spec, dp_raw, doc) -> Ref:
     plurals = [spec["pp"]] + [g["plural"] for g in spec["groups"]]
     singulars = [spec["pk"]] + [g["key"] for g in spec["groups"]]
     keys = list(doc)
-    short = any(isinstance(k, str) and k in singulars for k in keys)
-    if short:
+    short = route == "build" and any(isinstance(k, str) and k in singulars for k in keys)
+    if route != "build":
+        if all(isinstance(k, str) and (k in plurals or k == "axes") for k in keys):
+            ref.shape = "full"
+        else:
+            ref.shape = "none"
+            ref.refuse.append("unknown-entity")
+            return ref
+    elif short:
         ref.shape = "short"
         if any(not (isinstance(k, str) and (k in singulars or k in plurals or k == "axes")) for k in keys):
             ref.refuse.append("unknown-entity")
@@ -943,14 +1144,82 @@ def _trigger(f):
     return None
 
 
+def oracle_default(spec, count, impl_out: str):
+    """build_default_simulation: `count` instances of every entity, person i alone in group i of every kind
+    with the first role, no input."""
+    if impl_out.startswith("ALIASED"):
+        return ("default-simulation:aliasing", "two arrays of the default simulation share memory: " + impl_out[:200])
+    if not impl_out.startswith("OK "):
+        return ("default-simulation:refused", f"build_default_simulation(count={count}) gives {impl_out}")
+    obs = read_obs(impl_out)
+    ids = [str(i) for i in range(count)]
+    want = [{"key": spec["pk"], "ids": ids, "count": count, "memb": [], "roles": [], "pos": []}]
+    for g in spec["groups"]:
+        want.append({"key": g["key"], "ids": ids, "count": count, "memb": list(range(count)),
+                     "roles": [T.flat_roles(g)[0]] * count, "pos": [0] * count})
+    if obs["ents"] != want:
+        bad = next((o for o, w in zip(obs["ents"], want) if o != w), obs["ents"])
+        return ("default-simulation:entities", f"count={count}: {bad}")
+    if obs["store"]:
+        return ("default-simulation:inputs", f"count={count}: values stored {sorted(obs['store'])}")
+    return None
+
+
+def oracle_join(spec, jdoc, impl_out: str):
+    """declare_person_entity / declare_entity / join_with_persons: every person is recorded in the group
+    whose id was given for them, with the role given for them."""
+    pids = [str(x) for x in jdoc["persons"]]
+    for j in jdoc["groups"]:
+        gids = [str(x) for x in j["ids"]]
+        if len(set(gids)) != len(gids) or any(str(a) not in gids for a in j["of"]) or len(j["of"]) != len(pids) or \
+                len(j["roles"]) != len(pids) or not j["roles"]:
+            return None
+    if impl_out.startswith(("INPUT-MODIFIED", "ALIASED")):
+        return ("join:aliasing", "the declarations handed to the builder were modified, or two arrays share memory: " + impl_out[:200])
+    if impl_out.startswith("NBPERSONS"):
+        return ("join:nb-persons", "SimulationBuilder.nb_persons disagrees with the memberships the builder set: " + impl_out)
+    if not impl_out.startswith("OK "):
+        return ("join:refused", f"well-formed declarations refused ({impl_out})")
+    obs = read_obs(impl_out)
+    if obs["ents"][0]["ids"] != pids or obs["ents"][0]["count"] != len(pids):
+        return ("join:persons", f"persons {obs['ents'][0]['ids']}, declared {pids}")
+    by_kind = {j["kind"]: j for j in jdoc["groups"]}
+    for g, o in zip(spec["groups"], obs["ents"][1:]):
+        j = by_kind.get(g["key"])
+        if j is None:
+            return None
+        gids = [str(x) for x in j["ids"]]
+        flat = T.flat_roles(g)
+        want_m = [gids.index(str(a)) for a in j["of"]]
+        want_r = [flat[r] if isinstance(r, int) else r for r in j["roles"]]
+        if o["ids"] != gids or o["count"] != len(gids):
+            return ("join:ids", f"{g['key']}: ids {o['ids']}, declared {gids}")
+        if o["memb"] != want_m:
+            return ("join:membership", f"{g['key']}: members_entity_id {o['memb']}, declared {want_m} (ids {gids}, assignment {j['of']})")
+        if o["roles"] != want_r:
+            return ("join:roles", f"{g['key']}: members_role {o['roles']}, declared {want_r}")
+    return None
+
+
 def oracle(case: Case, impl_out: str):
+    route = route_of(case.line)
     spec, dp, doc = parse_line(case.line)
+    if route == "default":
+        return oracle_default(spec, doc, impl_out)
+    if route == "join":
+        return oracle_join(spec, doc, impl_out)
     status = impl_out.split(" ")[0]
+    if status == "INPUT-MODIFIED":
+        return ("description-modified", "the builder changed the description object it was given: a second build from it is another situation")
+    if status == "SECOND-BUILD-DIFFERS":
+        return ("second-build-differs", "two simulations built from the same description object differ: " + impl_out[:300])
+    if status == "ALIASED":
+        return ("stored-arrays-share-memory", "two stored vectors occupy the same memory (writing one changes the other): " + impl_out[:200])
     if status == "NONE":
         return (SIG_D, "build_from_dict returned None: neither a simulation nor a situation error")
     if status not in ("OK", "SITUATION", "ERR"):
         return None
-    ref = reference(spec, dp, doc)
+    ref = reference(spec, dp, doc, route)
     vmap = {v["name"]: v for v in spec["vars"]}
     f = ref.features
     hard = [c for c in ref.refuse if c in HARD]
@@ -1280,7 +1549,10 @@ def instance_values(rng, spec, entity_key, n_inst, dp, density=0.3, plans=None):
             vals = {}
             for c in canons:
                 if rng.random() < 0.75:
-                    vals[spell(rng, v["unit"], c)] = some_value(rng, v)
+                    key = spell(rng, v["unit"], c)
+                    if v["unit"] == "eternity" and rng.random() < 0.3:       # repair C12j: an eternal variable takes any period key
+                        key = rng.choice(["2018-01", "2018", "2018-01-15", "month:2018-01", 2018, "year:2017"])
+                    vals[key] = some_value(rng, v)
             inst[v["name"]] = vals
     return insts
 
@@ -1783,6 +2055,19 @@ def corpus():
         c("F-C12n", None, {"persons": {"a": {"p_i": {"2018-01": -2147483649.0}}, "b": {"p_i": {"2018-01": 2147483647}}}}),
         c("F-C12n", None, {"persons": {"a": {"p_e": {"2018-01": 32768}}}}),
         c("F-C12n", None, {"persons": {"a": {"p_i": {"2018-01": 2147483647}}, "b": {"p_i": {"2018-01": -2147483648}}}}),
+        # F-C12j: an eternal variable under a dated key and under ETERNITY (two persons; one person twice; three keys)
+        c("F-C12j", None, {"persons": {"a": {"p_d": {"2018-01": "1980-02-03"}}, "b": {"p_d": {"ETERNITY": "1990-02-03"}}}}),
+        c("F-C12j", None, {"persons": {"a": {"p_d": {"ETERNITY": "1980-02-03"}}, "b": {"p_d": {"2018": "1990-02-03"}},
+                                       "c": {"p_ee": {"2018-01-15": "blue"}}, "d": {"p_ee": {"eternity": "green"}, "p_d": {"2017-12": "2000-01-01"}}}}),
+        c("F-C12j", None, {"persons": {"a": {}, "b": {}}, "households": {"h": {"parents": ["a"], "h_d": {"2018-01": "1980-02-03"}},
+                                                                         "k": {"h_d": {"eternity": "1990-02-03"}}}}),
+        # F-C12-errclass-axes: an axis over an unknown variable / without any period is a situation error
+        c("F-C12-errclass-axes", None, {"persons": {"a": {}}, "households": {"h": {"parents": ["a"]}}, "families": {"fa": {"head": "a", "others": []}},
+                                        "axes": [[AX("zz", 2, 0, 1, period="2018-01")]]}),
+        c("F-C12-errclass-axes", None, {"persons": {"a": {}}, "households": {"h": {"parents": ["a"]}}, "families": {"fa": {"head": "a", "others": []}},
+                                        "axes": [[AX("p_f", 2, 0, 1)]]}),
+        c("F-C12-errclass-axes", None, {"persons": {"a": {}}, "households": {"h": {"parents": ["a"]}}, "families": {"fa": {"head": "a", "others": []}},
+                                        "axes": [[AX("p_f", 2, 0, 1, period="2018-01")], [AX("p_i", 2, 0, 5, period="2018-13"), AX("zz", 2, 10, 20, period="2018")]]}),
     ]
     return out + finding_cases(None, 0)
 
@@ -1791,11 +2076,45 @@ def corpus():
 # the generated stream
 
 
+JOIN_INT_IDS = [3, 10, 100, 7, 21, 1000, 0, 55, -4, 12]
+
+
+def gen_join(rng: random.Random, spec):
+    """Declarations for create_entities / declare_person_entity / declare_entity / join_with_persons: text or
+    integer ids (integers of different widths and signs, in no particular order), declared groups without
+    member, roles as keys or as indices into the flattened roles."""
+    n = rng.randint(1, 6)
+    pids = rng.sample(JOIN_INT_IDS, n) if rng.random() < 0.3 else pick_ids(rng, PERSON_IDS, n, allow_int=False)
+    groups = []
+    for g in spec["groups"]:
+        ng = rng.randint(1, 4)
+        gids = rng.sample(JOIN_INT_IDS, ng) if rng.random() < 0.35 else pick_ids(rng, GROUP_IDS + PERSON_IDS[:4], ng, allow_int=False)
+        pool = gids if rng.random() < 0.6 or ng == 1 else rng.sample(gids, rng.randint(1, ng - 1))      # some groups stay empty
+        flat = T.flat_roles(g)
+        roles = [rng.randrange(len(flat)) for _ in pids] if rng.random() < 0.5 else [rng.choice(flat) for _ in pids]
+        groups.append({"kind": g["key"], "ids": gids, "of": [rng.choice(pool) for _ in pids], "roles": roles})
+    return {"persons": pids, "groups": groups}
+
+
+def rerouted(rng: random.Random, spec, dp, doc, tags, well_formed: bool) -> Case:
+    """The same document through another entry point of the builder: build_from_entities called directly
+    (what the web API does), or — well-formed fully specified documents only — its steps one by one."""
+    r = rng.random()
+    if well_formed and r < 0.10 and manual_ok(spec, doc):
+        return mk_case(spec, dp, doc, tags=tags, route="manual")
+    if r < (0.25 if well_formed else 0.2):
+        return mk_case(spec, dp, doc, tags=tags, route="entities")
+    return mk_case(spec, dp, doc, tags=tags)
+
+
 def generate(rng: random.Random, tier: str):
-    n_specs, per_spec = (400, 50) if tier == "quick" else (8000, 60)
+    n_specs, per_spec = (400, 48) if tier == "quick" else (8000, 58)
     out = list(finding_cases(rng, 10 if tier == "quick" else 100))
-    for _ in range(n_specs):
+    for k_spec in range(n_specs):
         spec = gen_spec(rng)
+        style = ("static", "instance", "keyword", "omitted")[k_spec % 4]
+        out.append(mk_default_case(spec, 1 if style == "omitted" else rng.choice([1, 1, 2, 3, 5, 8, 13]), style))
+        out.append(mk_join_case(spec, gen_join(rng, spec)))
         for _ in range(per_spec):
             r = rng.random()
             if r < 0.13:
@@ -1806,9 +2125,15 @@ def generate(rng: random.Random, tier: str):
                         doc[k] = next(iter(doc[k].values()))
                         out.append(mk_case(spec, dp, doc, tags=("malformed", "shape:vars", "mut:undated-no-default")))
                         continue
+                if doc and rng.random() < 0.04:             # variables are no entities for build_from_entities
+                    out.append(mk_case(spec, dp, doc, tags=("malformed", "shape:vars"), route="entities"))
+                    continue
                 out.append(mk_case(spec, dp, doc, tags=("valid", "shape:vars")))
             elif r < 0.26:
                 dp, doc = gen_entities_doc(rng, spec, short=True, want_axes=rng.random() < 0.25 and bool(spec["groups"]))
+                if is_short_form(spec, doc) and rng.random() < 0.04:      # nor are singular keys
+                    out.append(mk_case(spec, dp, doc, tags=("malformed", "shape:short"), route="entities"))
+                    continue
                 out.append(mk_case(spec, dp, doc, tags=("valid", "shape:short" if is_short_form(spec, doc) else "shape:full")))
             elif r < 0.44 and spec["groups"]:
                 dp, doc = gen_entities_doc(rng, spec, want_axes=True)
@@ -1818,10 +2143,10 @@ def generate(rng: random.Random, tier: str):
                     del doc[rng.choice(spec["groups"])["plural"]]
                     out.append(mk_case(spec, dp, doc, tags=("malformed", "axes:missing-kind")))
                     continue
-                out.append(mk_case(spec, dp, doc, tags=("valid", "shape:full", tag)))
+                out.append(rerouted(rng, spec, dp, doc, ("valid", "shape:full", tag), True))
             elif r < 0.74:
                 dp, doc = gen_entities_doc(rng, spec)
-                out.append(mk_case(spec, dp, doc, tags=("valid", "shape:full")))
+                out.append(rerouted(rng, spec, dp, doc, ("valid", "shape:full"), True))
             elif r < 0.96:
                 dp, doc = gen_entities_doc(rng, spec, want_axes=rng.random() < 0.1 and bool(spec["groups"]))
                 cls = rng.choice(MUTATIONS)
@@ -1829,7 +2154,7 @@ def generate(rng: random.Random, tier: str):
                 if isinstance(m, tuple):
                     dp, m = None, m[1]
                 if m is not None:
-                    out.append(mk_case(spec, dp, m, tags=("malformed", "mut:" + cls)))
+                    out.append(rerouted(rng, spec, dp, m, ("malformed", "mut:" + cls), False))
             else:
                 # refusals of the short form (the mutation is applied inside an entity, not at the top)
                 dp, doc = gen_entities_doc(rng, spec, short=True)
@@ -1925,6 +2250,10 @@ def enumerate_thorough():
 
 def neighbours(case: Case):
     """Smaller documents around a diverging one: drop one top-level entry, one instance, one variable."""
+    route = route_of(case.line)
+    if route in ("default", "join"):
+        return []
+    route = "entities" if route == "manual" else route
     spec, dp, doc = parse_line(case.line)
     out = []
     if not isinstance(doc, dict):
@@ -1932,17 +2261,17 @@ def neighbours(case: Case):
     for k in list(doc):
         d = {a: b for a, b in doc.items() if a != k}
         if d:
-            out.append(mk_case(spec, dp, d, tags=("neighbour",)))
+            out.append(mk_case(spec, dp, d, tags=("neighbour",), route=route))
         if isinstance(doc[k], dict):
             for j in list(doc[k]):
                 d = copy.deepcopy(doc)
                 del d[k][j]
-                out.append(mk_case(spec, dp, d, tags=("neighbour",)))
+                out.append(mk_case(spec, dp, d, tags=("neighbour",), route=route))
                 if isinstance(doc[k][j], dict):
                     for z in list(doc[k][j]):
                         d = copy.deepcopy(doc)
                         del d[k][j][z]
-                        out.append(mk_case(spec, dp, d, tags=("neighbour",)))
+                        out.append(mk_case(spec, dp, d, tags=("neighbour",), route=route))
     return out[:200]
 
 
@@ -1968,21 +2297,30 @@ PROP = Prop(
           "default period; an ill-formed stream of single mutations (unknown entity, variable, person, duplicate membership, "
           "too many holders, text for a number, list or object as a value, unknown enum name, impossible date, unparsable "
           "period, mismatched period, no person, wrong JSON type) in the fully specified and short forms; a small stream per "
-          "recorded finding.  Compared: per entity ids, count, members_entity_id, members_role, members_position, per "
+          "recorded finding.  Other entry points of the builder (round 2): the same documents through build_from_entities called "
+          "directly (what the web API does; variables-only and short-form documents are refused there), well-formed fully "
+          "specified documents through the builder's public steps one by one (add_person_entity, add_group_entity / "
+          "add_default_group_entity, add_parallel_axis, add_perpendicular_axis, expand_axes, finalize_variables_init), "
+          "build_default_simulation (static / instance call, count positional / keyword / left out, 1-13 persons), and "
+          "create_entities / declare_person_entity / declare_entity / join_with_persons / nb_persons / build with text or integer "
+          "ids of different widths and signs in any order, declared groups without member, roles as keys or as indices.  "
+          "Aliasing: the description object handed to the builder must come back unchanged (also when it is refused); on a "
+          "quarter of the documents a second simulation is built from the SAME object and must equal the first; no two stored "
+          "vectors of different variables (or of two periods of a variable without set_input helper), and no id / membership "
+          "arrays of two entities, may occupy the same memory.  "
+          "Compared: per entity ids, count, members_entity_id, members_role, members_position, per "
           "(variable, known period) the stored vector, or SITUATION / ERR.  Non-trivial = a simulation with stored values or "
           "several members, or a refusal; distinct = distinct protocol lines."),
     assumptions=[
         "Holder.set_input and the two set_input helpers are outside this model: the theorems take `setInput` as a parameter with the stated frame assumption (never overwrite a known period of the variable, touch no other variable); the driver runs a transcription of the repaired helpers, tied by this correspondence; the clause 'longer periods fill only what is unknown' is checked by the oracle on the real code",
         "ids, variable names and text values are ASCII; two keys of one object never have the same text (a Python dict cannot hold duplicate keys; 1 and '1' together are not generated)",
-        "eternal variables are keyed ETERNITY/eternity only in the main streams (finding F-C12j); every instance that declares a dispatch/divide variable on a long period declares the same periods (finding F-C12m); refusals inside axes and in the variables-only form are judged as 'an error' only (finding F-C12-errclass)",
+        "every instance that declares a dispatch/divide variable on a long period declares the same periods (finding F-C12m); refusals in the variables-only form are judged as 'an error' only (finding F-C12-errclass: tests/core pins ValueError out of build_from_variables); eternal variables are given under dated keys too (F-C12j, fixed), axes over unknown variables / unreadable periods must be situation errors (F-C12-errclass-axes, fixed)",
         "numpy / numexpr conversions are modelled on the claimed value forms only (numbers, booleans, ISO dates, enum names, arithmetic text over 0-9 . + - * blank, plain words); other forms answer UNMODELLED in the model and are not binding",
         "float values are dyadic and exactly representable in float32; a divided share is one IEEE float32 division (the comparison rounds the model's exact quotient the same way)",
         "the order in which a Python set yields the persons left out of a group kind is not observable behaviour: own-groups are renumbered in person order before comparison; ids of axis copies are compared with the model but not judged by the oracle",
         "Variable.end, neutralised variables, max_length strings and memory configuration are not exercised",
     ],
-    partial_theorems=[
-        "C12_spelling_invariant_dict_partial: build_from_dict on documents respelt under TopEq, proved when no top-level key is a singular entity key or a variable name (fully specified shape and the fall-through of repair C12d); the short form and the variables-only form are covered at the level of build_from_entities / one set_input (C12_spelling_invariant) but not lifted through explicit_singular_entities / build_from_variables",
-    ],
+    partial_theorems=[],
     exhaustive_note=("thorough: two persons x every pair of spellings of one month / year / eternity key x 7 membership "
                      "layouts (4 variables); every person variable without set_input x 29 value forms"),
 )
